@@ -25,13 +25,13 @@ func c07L2TP(entry string, n []uint64, f []string) string {
 		switch err {
 		case nil:
 		case ErrShortPacket:
-			return "err 1"
+			return "err"
 		case ErrReservedBits:
-			return "err 2"
+			return "err"
 		case ErrLengthInvalid:
-			return "err 3"
+			return "err"
 		default:
-			return "err 9"
+			return "err"
 		}
 		return c07Ok(append(prefix, c07Bool(h.IsControl), c07Bool(h.HasLength), c07Bool(h.HasSequence), c07Bool(h.HasOffset),
 			c07Bool(h.Priority), c07U(uint64(h.Version)), c07U(uint64(h.Length)), c07U(uint64(h.TunnelID)),
@@ -50,17 +50,17 @@ func c07L2TP(entry string, n []uint64, f []string) string {
 		switch err {
 		case nil:
 		case ErrAVPShort:
-			return "err 1"
+			return "err"
 		case ErrAVPReserved:
-			return "err 2"
+			return "err"
 		case ErrAVPLengthTooSmall:
-			return "err 3"
+			return "err"
 		case ErrAVPLengthTooBig:
-			return "err 4"
+			return "err"
 		case ErrAVPHiddenNoRV:
-			return "err 5"
+			return "err"
 		default:
-			return "err 9"
+			return "err"
 		}
 		toks := append(prefix, c07U(uint64(len(avps))))
 		for _, a := range avps {
